@@ -2,16 +2,25 @@ use hv::lsp::{Sandbox, Server};
 use serde_json::json;
 fn main() {
     let sb = Sandbox::new("dbg");
-    let mut srv = Server::start(&sb, sb.settings(json!({})), None).unwrap();
+    let trace = sb.root.join("trace.txt");
+    let wrapper = hv::lsp::strace::strace_wrapper(&trace, "%network,openat,open,creat,mkdir,mkdirat,rename,renameat,renameat2,unlink,unlinkat,truncate,ftruncate,link,linkat,symlink,symlinkat,chmod,fchmodat,execve");
+    let mut srv = Server::start(&sb, sb.settings(json!({})), Some(wrapper)).unwrap();
+    let text = "We like the frobnix very much.\n";
+    std::fs::write(sb.ws_file("a.txt"), text).unwrap();
+    let uri = sb.uri("a.txt");
+    srv.open(&uri, "plaintext", text).unwrap();
+    srv.execute_and_publish("HarperAddToUserDict", json!(["frobnix", uri]), &uri).unwrap();
+    srv.execute_and_publish("HarperAddToFileDict", json!(["zorblax", uri]), &uri).unwrap();
     let rk = harper_stats::RecordKind::Lint { kind: harper_core::linting::LintKind::Spelling, context: vec![] };
-    let arg = serde_json::to_string(&rk).unwrap();
-    println!("arg {arg}");
-    let r = srv.execute("HarperRecordLint", json!([arg]));
-    println!("exec {:?}", r);
-    let id = srv.request("shutdown", serde_json::Value::Null).unwrap(); println!("shutdown -> {:?}", srv.wait_response(id, std::time::Duration::from_secs(5)));
+    srv.execute("HarperRecordLint", json!([serde_json::to_string(&rk).unwrap()])).unwrap();
     srv.shutdown().unwrap();
-    println!("stats {:?} exists={}", sb.stats(), sb.stats().exists());
-    println!("{:?}", std::fs::read_to_string(sb.stats()));
-    let out = std::process::Command::new("find").arg(&sb.root).output().unwrap();
-    println!("{}", String::from_utf8_lossy(&out.stdout));
+    let t = std::fs::read_to_string(&trace).unwrap();
+    let sys = hv::lsp::strace::parse_trace(&t);
+    for s in &sys {
+        let strs = s.string_args();
+        let w = s.args.contains("O_WRONLY") || s.args.contains("O_RDWR") || s.args.contains("O_CREAT");
+        if s.name.starts_with("open") && !w { continue; }
+        println!("{} {}({:?}) {} = {}", s.pid, s.name, strs.iter().map(|x| x.chars().take(80).collect::<String>()).collect::<Vec<_>>(), s.args.split(',').filter(|a| a.contains("O_") || a.contains("AF_")).collect::<Vec<_>>().join(","), s.ret.chars().take(60).collect::<String>());
+    }
+    println!("total syscalls {}", sys.len());
 }
